@@ -524,6 +524,14 @@ func (f *Firewall) inConns(fp firewall.Packet, h *HostInfo, caPool *cert.CAPool,
 		return false
 	}
 
+	// The timer wheel only evicts when another flow is added, so an idle entry can outlive its timeout.
+	// Never honour an expired entry: forget it and let the rules decide about this packet.
+	if !c.Expires.After(time.Now()) {
+		delete(conntrack.Conns, fp)
+		conntrack.Unlock()
+		return false
+	}
+
 	if c.rulesVersion != f.rulesVersion {
 		// This conntrack entry was for an older rule set, validate
 		// it still passes with the current rule set
